@@ -78,6 +78,16 @@ func (sa *Application) VerifFireStateTimer() bool {
 	return true
 }
 
+// VerifStopTimers stops the placeholder and state timers of the application without running their callbacks. The
+// harness calls it when it discards a scheduler instance: a pending timer (up to days for a terminated application)
+// would otherwise keep the application, and everything it refers to, alive until the process ends.
+func (sa *Application) VerifStopTimers() {
+	sa.Lock()
+	defer sa.Unlock()
+	sa.clearStateTimer()
+	sa.clearPlaceholderTimer()
+}
+
 // VerifSortedRequestKeys returns the allocation keys of the pre-sorted request list, in order.
 func (sa *Application) VerifSortedRequestKeys() []string {
 	sa.RLock()
